@@ -8,8 +8,8 @@ NOT_SHOWN = {
  "03": ["full getBH pipeline covariance with Sensor observers (proved for position observers; sensors are C04)"],
  "04": ["pixel_agg reductions other than sum/min/max (mean, median, std, ...) are not modelled; the theorem holds for any reduction function of the pixel list, the stream exercises sum/min/max"],
  "05": ["linearity of each class's kernel in its excitation (kernel-level, see C01/C02); proved here: the marshalling preserves it for any F"],
- "06": ["batch-level control flow inside kernels: the TriangularMesh row grouping (trimesh_grouping_rowwise, trimesh stream) and both branches of the Polyline batch "
-        "(polyline_batch_rowwise, poly stream) are modelled and proved row-wise; "
+ "06": ["batch-level control flow inside kernels: the whole TriangularMesh batch (flat triangle call, reshape/split sums, row grouping: trimesh_batch_rowwise, trimesh_grouping_rowwise; "
+        "trimesh streams) and both branches of the Polyline batch (polyline_batch_rowwise, poly stream) are modelled and proved row-wise; "
         "CylinderSegment's all-on-surface early return and the cel n<10 / cel_iter n<15 switches between scalar and vectorised routines: element-vs-single-call oracle only",
         "np.squeeze / np.expand_dims / reshape semantics are assumed as modelled (shape list + unchanged row-major data), exercised by the stream"],
 }["06"]
@@ -19,6 +19,7 @@ def run(ctx, model_ok):
     if ctx.driver_ok:
         from corr import trimesh_family
         ctx.cov["correspondence_trimesh"] = trimesh_family.run_stream(ctx, ctx.scale(120, 4000))
+        ctx.cov["correspondence_trimesh_batch"] = trimesh_family.run_batch_stream(ctx, ctx.scale(80, 2500))
         from corr import poly_family
         ctx.cov["correspondence_poly"] = poly_family.run_stream(ctx, ctx.scale(150, 5000))
     _level2.run(ctx, oracle.c06_sweep, {"03": 60, "04": 60, "05": 40, "06": 50}["06"], {"03": 2000, "04": 2000, "05": 1200, "06": 1500}["06"], NOT_SHOWN)
